@@ -296,16 +296,17 @@ def run(ctx):
 def run_checked(ctx):
     build_harness()
     ctx.cov["rule"] = (
-        "bound = real calls of the printer / parser / formatter judged by Trace_BoxLang (plus parse results compared "
-        "with the results TLC printed for the model's programs).  rt: a ds list printed (whole-list conversion or "
-        "Display per element) and parsed back -- the printed text, read by the specification's lexer and grammar, must "
-        "spell exactly ToCalls(list), the parse must give exactly FromProg of that, and the list must come back; "
-        "parse: the result must be FromProg of what the text spells (list equal, or the same sequence of error "
-        "classes with function / parameter names, all spans inside the source) when the text lexes into the call "
-        "level, errors when it has a lexical error the implementation reports or breaks the grammar, a list or "
-        "located errors otherwise, never a panic; format: Ok, spelling the same program, and a fixed point -- or "
-        "errors for a malformed source.  non-trivial = events decided by an exact prediction (rt, parse.exact, "
-        "format.exact), counted by TLC itself (STATS line of the trace spec)."
+        "bound = real calls of the printer / parser / formatter judged by Trace_BoxLang, which reads the recorded TEXT "
+        "with the specification's own lexer and grammar (plus parse results compared with the results TLC printed for "
+        "the model's programs).  rt: a ds list printed (whole-list conversion or Display per element) and parsed back -- "
+        "the printed text must lex into the call level and denote the list (FromProg(Read(text)) = list), the real parse "
+        "must give exactly that, and the list must come back; parse: text at the call level -- the list FromProg gives, "
+        "or errors when FromProg has errors; text with a lexical error the implementation reports, or breaking the "
+        "grammar -- errors; otherwise a list or errors; errors non-empty with every span inside the source on character "
+        "boundaries; never a panic; format: Ok, Read(formatted) = Read(source), second pass identical -- or errors for a "
+        "malformed source.  Counted but not demanded: the printed program is literally ToCalls(list); the error sequence "
+        "is literally FromProg's.  non-trivial = events decided by an exact prediction (rt, parse.exact, format.exact), "
+        "counted by TLC itself (STATS line of the trace spec)."
     )
     with cf.ThreadPoolExecutor(max_workers=2) as ex:
         fm = ex.submit(run_models, ctx)
